@@ -23,7 +23,8 @@ class Contract:
                  env=None, note='', name=None, self_obj=None, cases=None,
                  budget=None, skip_self=False, native=None,
                  native_scope=None, always_raises=False, track_pulls=None,
-                 track_slices=False, gen_form=None, invoke_result=False):
+                 track_slices=False, gen_form=None, invoke_result=False,
+                 after=None):
         self.target = target
         self.params = params or {}
         self.requires = list(requires)
@@ -58,6 +59,11 @@ class Contract:
         # no arguments right after the body and state the ensures over the
         # whole call log and the delegate's result
         self.invoke_result = invoke_result
+        # scenario driver: Python source of `def after(result, ...)` that is
+        # executed (symbolically, like repository code) on the value the
+        # target returned - e.g. a sequence of method calls on the object a
+        # factory function built; its return value becomes `result`
+        self.after = after
 
     def param_order(self, fn):
         a = fn.node.args
@@ -370,6 +376,13 @@ def _run_path(world, c, params, tag, it, path, rep, first):
                 post_made = value
                 value = it.call(value, [], {}, fnode)
                 it.ghost_vars['DELEGATE'] = post_made
+            if c.after:
+                dnode = ast.parse(c.after).body[0]
+                dfr = Frame(module=c.module)
+                dfr.vars.update(it.ghost_vars)
+                drv = FuncRef(c.module, dnode, 'after', closure=dfr)
+                it.ghost_vars['MADE'] = value
+                value = it.call(drv, [value], {}, fnode)
     except RaiseSig as r:
         outcome, value = 'raise', r.exc
     except CutPath:
